@@ -48,8 +48,47 @@ def _register_eval(ctx, kinds, fn):
     ctx.uf_eval = dispatch
 
 
+_SNAP = {}
+
+
+def snap_node(n: Node, bits=40) -> Node:
+    """canonical representative of a polynomial argument with coefficients rounded to 2^-bits: arguments that agree
+    to ~1e-12 become the SAME node (used where two code paths compute the same deformation gradient with
+    different floating-point shape-function values; assumes a continuous material response)"""
+    from fractions import Fraction
+    from .normal import Normalizer, Poly
+    from .sym import var, Sym, ZERO
+
+    norm = _SNAP.setdefault("norm", Normalizer())
+    num, den = norm.ratnorm(n)
+    if den:
+        return n
+    P = norm.poly(num)
+    key = []
+    for m, c in sorted(P.t.items()):
+        r = Fraction(round(c * (1 << bits)), 1 << bits)
+        if r != 0:
+            key.append((m, r))
+    key = tuple(key)
+    got = _SNAP.get(key)
+    if got is not None:
+        return got
+    tot = Sym(ZERO)
+    for m, r in key:
+        t = Sym(lift(r))
+        for g, e in Poly.unpack(m):
+            info = norm.gen_info[g]
+            if info["kind"] != "var":
+                return n
+            t = t * var(info["name"]) ** e
+        tot = tot + t
+    _SNAP[key] = tot.n
+    return tot.n
+
+
 class AbstractHyperelastic:
-    def __init__(self, ctx, dim=3, concrete=None, tag=""):
+    def __init__(self, ctx, dim=3, concrete=None, tag="", snap=False):
+        self.snap = snap
         self.ctx = ctx
         self.dim = dim
         self.tag = tag
@@ -80,7 +119,10 @@ class AbstractHyperelastic:
 
     def _args(self, F, q):
         d = self.dim
-        return [lift(F[(i, j) + q]) for i in range(d) for j in range(d)]
+        args = [lift(F[(i, j) + q]) for i in range(d) for j in range(d)]
+        if self.snap:
+            args = [snap_node(a) for a in args]
+        return args
 
     def function(self, x):
         F = x[0]
